@@ -188,8 +188,9 @@ Print Assumptions C13_tag_schema_remove_then_absent.
 (* ... and at the level of the OPERATIONS, in any registry state of a registry WITHOUT the
    Referrers API (manifests with subjects may already be stored: [minv] is [inv] without the
    condition on who indexes subjects): Push of an accurate, indexable manifest whose subject is
-   sj succeeds, leaves the client in referrers state "unsupported", and Predecessors(sj) then
-   lists the old referrers followed by the pushed descriptor. *)
+   sj succeeds, leaves the client in referrers state "unsupported", the referrers tag points to
+   the regenerated index, the manifest is stored, and Predecessors(sj) then lists the old
+   referrers followed by the pushed descriptor. *)
 Theorem C13_push_subject_then_predecessors :
   forall (H : str -> str) (parse_mt : str -> option str) (subject_of : str -> option (option desc))
          (main other : str) (user_mts : list str) (limit : N) (skip_gc : bool)
@@ -219,6 +220,8 @@ Theorem C13_push_subject_then_predecessors :
                (cexch H subject_of main other p None) (g, n) rst (OPush d c)
         = ((g', n'), RSUnsupported, t, ROk) /\
         minv H parse_mt limit g' /\
+        index_state g' tag (Some (H (gen_index upd), upd)) /\
+        (d_dg d <> H (gen_index upd) -> lookup (d_dg d) (g_mans g') = Some (d_mt d, c)) /\
         exists n'' t',
           run_op H parse_mt subject_of main other user_mts limit skip_gc index_of (reg * N)
                  (cexch H subject_of main other p None) (g', n') RSUnsupported (OPreds sj)
@@ -226,8 +229,8 @@ Theorem C13_push_subject_then_predecessors :
 Proof. exact push_subject_then_predecessors. Qed.
 Print Assumptions C13_push_subject_then_predecessors.
 
-(* ... and Delete of a stored manifest with subject sj (client in referrers state "unsupported",
-   as the theorem above leaves it): the referrer is taken out of the index, the manifest is deleted,
+(* ... and Delete of a stored manifest with subject sj (referrers state unknown -- the client then
+   pings the API first -- or "unsupported"): the referrer is taken out of the index, the manifest is deleted,
    Predecessors(sj) lists the remaining referrers. *)
 Theorem C13_delete_subject_then_predecessors :
   forall (H : str -> str) (parse_mt : str -> option str) (subject_of : str -> option (option desc))
@@ -237,8 +240,8 @@ Theorem C13_delete_subject_then_predecessors :
     (forall l, index_of (gen_index l) = Some l) ->
     (forall l, subject_of (gen_index l) = Some None) ->
     parse_mt mt_index = Some mt_index ->
-    forall g n d c sj od l,
-      minv H parse_mt limit g -> p_referrers p = false ->
+    forall g n rst d c sj od l,
+      minv H parse_mt limit g -> p_referrers p = false -> rst <> RSSupported ->
       is_manifest user_mts d = true -> indexable_del (d_mt d) = true ->
       lookup (d_dg d) (g_mans g) = Some (d_mt d, c) -> len c = d_sz d -> valid_digest (d_dg d) = true ->
       subject_of c = Some (Some sj) -> valid_digest (d_dg sj) = true ->
@@ -254,7 +257,7 @@ Theorem C13_delete_subject_then_predecessors :
       skip_gc = true \/ od <> H (gen_index upd) ->
       exists g' n' t,
         run_op H parse_mt subject_of main other user_mts limit skip_gc index_of (reg * N)
-               (cexch H subject_of main other p None) (g, n) RSUnsupported (ODelete d)
+               (cexch H subject_of main other p None) (g, n) rst (ODelete d)
         = ((g', n'), RSUnsupported, t, ROk) /\
         minv H parse_mt limit g' /\ lookup (d_dg d) (g_mans g') = None /\
         exists n'' t',
